@@ -437,6 +437,9 @@ spif_mbuff_cmp(spif_mbuff_t self, spif_mbuff_t other)
 
     SPIF_OBJ_COMP_CHECK_NULL(self, other);
     c = memcmp(SPIF_MBUFF_BUFF(self), SPIF_MBUFF_BUFF(other), MIN(self->len, other->len));
+    if ((c == 0) && (self->len != other->len)) {
+        return ((self->len < other->len) ? (SPIF_CMP_LESS) : (SPIF_CMP_GREATER));
+    }
     return SPIF_CMP_FROM_INT(c);
 }
 
